@@ -17,17 +17,17 @@ COMMON_NOTE = ("Trusted: Coq 8.16.1 kernel (full .vo build, vm_compute, no nativ
 
 # id -> (technique, level text, extra note, design ref)   -- only properties whose check is built and passes
 CLAIMED = {
-    "C08": ("Rocq proof: reading with a reader schema = decode under the writer schema, then the specification's resolution function (field matching by name/alias, defaults, promotions, enum defaults, union rules, errors); the value-level algorithm of the code equals that specification for inline schemas; model vs schemaless_reader / reader(reader_schema=) on composed schema evolutions",
+    "C08": ("Rocq proof: reading with a reader schema = decode under the writer schema, then the specification's resolution function (field matching by name/alias, defaults, promotions, enum defaults, union rules, errors); the value-level algorithm of the code equals that specification for schemas without / with by-name references under any reader options; model vs schemaless_reader / reader(reader_schema=) on composed schema evolutions",
             "Theorems (coq/props/C08.v, 31): C08_factor_code (all schema pairs, options, layouts: rdec = decode ; rval), C08_factor_zone_partial / _layout_partial (rval = resolve under the computable `agree`), "
             "C08_match_is_spec, C08_branch_choice_is_spec, C08_record_guard_consistent, C08_identity (+_code_partial), C08_error_* (no default, not promotable, unknown symbol, fixed size, name mismatch, kind, no branch, items), "
             "C08_enum_default, C08_old_code_refuted_* (8 witnesses on which the code before the repairs left the specification; model/ResolveOld.v). Tie: implementation vs rdec AND vs resolve on "
             "(writer, 1..6 evolution steps, datum) through both reading routes; the hand-written witnesses of every repaired defect stay as regression cases.",
-            "PARTIAL: two zone theorems (inline schemas incl. dict-form primitives: C08_factor_zone_partial; by-name references incl. recursive types: C08_factor_zone_refs_partial) cover ~90 % of the generated evaluations; outside them (logicalType annotations on non-primitive types, nested unions, reader options) the statement is decided by the correspondence against `resolve`. F6, F7, F30, F31 and the earlier C08 defects are repaired in /repo (fix: commits).", "§3 C08"),
+            "PARTIAL: two zone theorems (inline schemas incl. dict-form primitives: C08_factor_zone_partial; by-name references incl. recursive types: C08_factor_zone_refs_partial, conditions followed to the depth of the value), both for ANY reader options (return_record_name / return_named_type and overrides: the specification `resolve o` wraps union values by wrap_spec, proved equal to the code's wrapping), cover 100 % of the generated evaluations; outside them (logicalType annotations on non-primitive types, nested unions - not generated) the statement is decided by the correspondence against `resolve`. F6, F7, F30, F31 and the earlier C08 defects are repaired in /repo (fix: commits).", "§3 C08"),
     "C09": ("Rocq proof about the writer's union branch search as a function: chosen branch conforms, tuple and '-type' hints select exactly the named branch (error when none), first conforming non-record branch, float defers to double, most shared fields first on ties; union indices and named-type reporting vs the model + the statement evaluated on the written index",
             "Theorems (coq/props/C09.v, 13): C09_conforming, C09_function, C09_tuple_hint, C09_type_hint (+_validate), C09_first_nonrecord, C09_float_defers_to_double, C09_double_chosen, "
             "C09_most_fields_first_on_tie, C09_search_spec, C09_no_branch, C09_closure_partial. Tie: union index written by fastavro vs the model's elab on unions of primitive mixes, several "
             "records, enums/fixed, references, arrays/maps, nested hints x {no hint, tuple, -type} x disable_tuple_notation; the four reader options; closure (read with names, write back: same bytes).",
-            "C09_closure is proved at the union node only (_partial); beyond it the closure clause is decided by the correspondence. F13 ([Rec, map] with a dict fitting both goes to the map branch) is left open by the statement: observation only.", "§3 C09"),
+            "C09_closure / C09_closure_bytes / C09_closure_written: every well-typed wire value (in particular whatever the writer wrote) read with return_named_type=True and written back under the same schema gives the identical bytes, under the boolean side condition closb (named union branches: first of their name with tuple notation on; unnamed branches: the read-back value re-resolves to the same branch; float leaves stable under single->double->single, enum index = first occurrence, distinct map keys / field names); closb is evaluated in-model on every case and cross-checked against model and implementation (C09_closure_refuted = an instance with closb false, outside the statement). F13 ([Rec, map] with a dict fitting both goes to the map branch) is left open by the statement: observation only.", "§3 C09"),
     "C10": ("Rocq proof: validate returns True exactly on the declarative conformance relation (clause by clause from the documented mapping), raises exactly where it would answer False, strict rule, accepted => elaborated => round trip under an explicit writer-domain condition; validate / validate_many / validating writers vs the model on conforming and singly-mutated data",
             "Theorems (coq/props/C10.v, 13): C10_iff, C10_sound, C10_complete, C10_raise_agrees, C10_raise_iff, C10_strict, C10_fuel_monotone, C10_gate, C10_accepted_typed, C10_absent_field_agrees, "
             "C10_writer_accepts_iff, C10_encoded_needs, C10_accepted_roundtrip, C10_writer_accepts_refuted (witnesses for each clause of wneed: foreign exception in a later branch, strict writer, float overflow), C10_gate_* (5). "
@@ -42,7 +42,7 @@ CLAIMED = {
             "Theorems (coq/props/C12.v): C12_idempotent_marked, C12_idempotent, C12_reparse_names, C12_reparse_partial, C12_selfcontained_partial, C12_parsed_selfcontained. Tie: for generated "
             "schemas and EVERY feasible subset of their named types parsed separately against a shared dict: schemaless writer/reader, validate, json writer/reader, container blocks + file "
             "readable on its own, canonical form, fingerprint, generate_many under a fixed random state must agree across the three forms (the statement itself), and with the model.",
-            "PARTIAL: C12_piecewise in general and C12_ops_respect_equiv (a statement about the codec model's lookup-based functions) are decided by the correspondence only.", "§3 C12"),
+            "C12_piecewise proved (C12_piecewise, _fuel, _names, _core): for separately parsed pieces that are one named type each with distinct names, inlining the shared table into the piecewise-parsed parent gives, up to the two marker keys, exactly the parse of the parent with the pieces written inline at first use (same JSON, names, canonical form; self-contained); evaluated on generated splits against the implementation (thm:piecewise-instance). PARTIAL: pieces that are unions/several types, table-entry equality, and C12_ops_respect_equiv composed over a whole table (one inlining step proved) are decided by the correspondence only.", "§3 C12"),
     "C13": ("Rocq proof: canonical form of the parsed schema = the specification's transformation applied to the raw JSON (C13_spec), invariance under the inductive closure of cosmetic edits, JSON-level fixed point; model and independent pcf vs to_parsing_canonical_form incl. Apache vectors",
             "Theorems (coq/props/C13.v): C13_spec (all simple_raw schemas incl. top-level unions), C13_cosmetic (+ instances), C13_fixed_point_json, C13_fixed_point (unconditional in the classes simple_raw + ns_closed; outside ns_closed it is false: C13_fixed_point_refuted / K2), C13_canonical_json_simple, 11 Apache vectors by vm_compute. "
             "Tie: canon.parse (model) = pcf (model) = implementation on generated schemas and cosmetic rewrites; fixed point through json.loads.",
